@@ -1341,7 +1341,12 @@ class PlainQuantity(Generic[MagnitudeT], PrettyIPython, SharedRegistryObject):
             return bool_result(False)
 
         # TODO: this might be expensive. Do we even need it?
-        if eq(self._magnitude, 0, True) and eq(other._magnitude, 0, True):
+        if (
+            self._is_multiplicative
+            and other._is_multiplicative
+            and eq(self._magnitude, 0, True)
+            and eq(other._magnitude, 0, True)
+        ):
             return bool_result(self.dimensionality == other.dimensionality)
 
         if self._units == other._units:
